@@ -57,7 +57,7 @@ def run(tier):
              'statement (last completed command + command timeout; 354 + data timeout, cumulative); '
              'relay side: the downstream goes silent at connect, banner, EHLO/LHLO (and HELO fallback), MAIL, each RCPT, DATA and '
              'end-of-data (per recipient for LMTP), PIPELINING on/off, SMTP/LMTP, 1-2 recipients, with and without an earlier '
-             'rejected recipient; a pipe child that outlives its timeout; '
+             'rejected recipient; a pipe child that outlives its timeout (1-3 recipients, the first, a middle or the last one stalling, both per-recipient modes); '
              'non-trivial = at least one byte trickled during the stall, or a relay-side stall',
         trigger=lambda tr: tr['cfg'].get('npieces', 0) > 0 or 'stage' in tr['cfg'],
         assumptions=['virtual time: every gevent Timeout is driven by harness/vt.py, the clock is advanced to each trickle '
